@@ -120,7 +120,7 @@ pub fn gen_c12(rng: &mut Rng, tier: Tier) -> Result<Value, serde_json::Error> {
         Tier::Quick => 100 + rng.usize(200),
         Tier::Thorough => 250 + rng.usize(250),
     };
-    let selections = (0..3)
+    let mut selections: Vec<Map<String, Value>> = (0..3)
         .map(|i| {
             let keep = 300 + rng.below(700);
             if i == 0 {
@@ -130,6 +130,25 @@ pub fn gen_c12(rng: &mut Rng, tier: Tier) -> Result<Value, serde_json::Error> {
             }
         })
         .collect();
+    // requests that name claims which were never issued (the holder's error path): at the top
+    // level, and inside an object that exists
+    {
+        let mut s = Map::new();
+        s.insert("nickname_never_issued".into(), if rng.bool() { json!(true) } else { json!({"x": true}) });
+        selections.push(s);
+        let mut s = gen::select_all(&claims);
+        let mut planted = false;
+        for (_, v) in s.iter_mut() {
+            if let Value::Object(o) = v {
+                o.insert("member_never_issued".into(), json!(true));
+                planted = true;
+                break;
+            }
+        }
+        if planted {
+            selections.push(s);
+        }
+    }
     serde_json::to_value(DecoyScn { kind: "decoys".into(), check: "C12".into(), entropy_seed: rng.next_u64(), clock_base: now, key: key.clone(), alg: Some(keys::alg_of(&key).to_string()), claims, strat, fmt: rand_fmt(rng), issuances, selections })
 }
 
@@ -890,6 +909,12 @@ pub struct MockScn {
     pub key: String,
     pub queue: Vec<String>,
     pub issuances: Vec<MockIssue>,
+    /// two issuances running at the same time on the two issuer threads, interleaved by this
+    /// seeded schedule at every acquisition of the salt queue's lock (guarded hook in /repo) and at
+    /// every wake-up of a lock waiter: between them they must use the next salts of the queue, each
+    /// exactly once, each credential in queue order
+    #[serde(default)]
+    pub concurrent: Option<(MockIssue, MockIssue, u64)>,
 }
 
 fn nasty_string(rng: &mut Rng) -> String {
@@ -957,7 +982,9 @@ pub fn gen_c16(rng: &mut Rng, _tier: Tier) -> Result<Value, serde_json::Error> {
         issuances.push(MockIssue { claims, strat, fmt: rand_fmt(rng), node: rng.usize(2), decoys: rng.chance(1, 4), contended: rng.chance(1, 12), bad_alg: rng.chance(1, 10) });
     }
     // queue comfortably longer than needed (an empty queue panics by design of the mock build)
-    let qlen = 400;
+    // usually comfortably longer than needed; sometimes too short: an issuance that needs more
+    // salts than are queued must not produce an SD-JWT with salts that were never queued
+    let qlen = if rng.chance(1, 10) { rng.usize(6) } else { 400 };
     // sometimes a fixture with repeated lines: neighbouring entries are equal (legal input; each
     // entry is still one salt for one disclosure)
     let repeats = rng.chance(1, 4);
@@ -972,7 +999,21 @@ pub fn gen_c16(rng: &mut Rng, _tier: Tier) -> Result<Value, serde_json::Error> {
         rng.fill(&mut b);
         queue.push(format!("{}-{}", model::b64e(&b), i));
     }
-    serde_json::to_value(MockScn { kind: "mock".into(), check: "C16".into(), entropy_seed: rng.next_u64(), clock_base: now, key, queue, issuances })
+    let concurrent = if qlen >= 100 && rng.chance(1, 3) {
+        let mk = |rng: &mut Rng, node: usize| {
+            let mut m = Map::new();
+            for i in 0..1 + rng.usize(5) {
+                m.insert(format!("k{}_{}", node, i), json!(format!("v{}", rng.below(1000))));
+            }
+            m.insert("iss".into(), json!("https://issuer-a.example"));
+            m.insert("exp".into(), json!(now + 86400));
+            MockIssue { claims: Value::Object(m), strat: Strat::Top, fmt: rand_fmt(rng), node, decoys: false, contended: false, bad_alg: false }
+        };
+        Some((mk(rng, 0), mk(rng, 1), rng.next_u64()))
+    } else {
+        None
+    };
+    serde_json::to_value(MockScn { kind: "mock".into(), check: "C16".into(), entropy_seed: rng.next_u64(), clock_base: now, key, queue, issuances, concurrent })
 }
 
 #[cfg(not(feature = "mock"))]
@@ -1086,6 +1127,9 @@ pub fn execute_c16(scn_v: &Value) -> RunReport {
     let mut cx = Ctx::new();
     let scenario = scn_v.clone();
     let set_queue = |q: &[String]| {
+        // an earlier scenario may have exhausted the queue (the mock build panics then, with the
+        // lock held): un-poison, the library itself unwraps the lock result
+        sd_jwt_rs::utils::SALTS.clear_poison();
         let mut g = sd_jwt_rs::utils::SALTS.lock().unwrap_or_else(|e| e.into_inner());
         g.clear();
         g.extend(q.iter().cloned());
@@ -1142,7 +1186,10 @@ pub fn execute_c16(scn_v: &Value) -> RunReport {
                 cx.rep.evaluations += 1;
             }
             if out.is_panic() {
-                cx.rep.count("skipped_panic_is_c07");
+                if pass == 0 {
+                    cx.rep.count(if scn.queue.len() < 100 { "probe.issuance_with_exhausted_queue_refused" } else { "skipped_panic_is_c07" });
+                }
+                sd_jwt_rs::utils::SALTS.clear_poison();
                 outs.push(None);
                 // the queue position after an unwound issuance is undefined: stop this pass
                 break;
@@ -1235,6 +1282,98 @@ pub fn execute_c16(scn_v: &Value) -> RunReport {
             if cx.rep.sample.is_none() {
                 cx.rep.sample = Some(json!({"kind": "mock", "issuance": j, "claims": is.claims, "strategy": is.strat.name(), "disclosures": n_j,
                     "decoded_disclosures": m.disclosures.iter().take(4).map(|d| model::b64d(d).map(|b| String::from_utf8_lossy(&b).to_string())).collect::<Vec<_>>()}));
+            }
+        }
+        if let Some((ia, ib, sched)) = &scn.concurrent {
+            // fresh queue position: what is left of the queue after the sequential part
+            let before = queue_now();
+            let jobs: Vec<Job> = [ia, ib]
+                .iter()
+                .enumerate()
+                .map(|(k, is)| {
+                    let ih2 = ih[k].clone();
+                    let (claims, strat, fmt) = (is.claims.clone(), is.strat.clone(), is.fmt);
+                    Box::new(move || {
+                        let mut g = ih2.lock().unwrap_or_else(|e| e.into_inner());
+                        let r = g.get().issue_sd_jwt(claims, world::strat_to_lib(&strat), None, false, fmt.lib()).ok();
+                        Box::new(r) as JobOut
+                    }) as Job
+                })
+                .collect();
+            let mut jobs = jobs.into_iter();
+            w.rt.submit(nodes[0], jobs.next().unwrap());
+            w.rt.submit(nodes[1], jobs.next().unwrap());
+            crate::rt::LOCK_POINT_YIELDS.store(true, Ordering::SeqCst);
+            crate::rt::FUTEX_WAKE_YIELDS.store(true, Ordering::SeqCst);
+            let mut rng = Rng::new(*sched);
+            let mut res: [Option<Option<String>>; 2] = [None, None];
+            let mut guard = 0;
+            while res.iter().any(|r| r.is_none()) && guard < 100_000 {
+                guard += 1;
+                let runnable = w.rt.runnable();
+                let cand: Vec<usize> = (0..2).filter(|k| res[*k].is_none() && runnable.contains(&nodes[*k])).collect();
+                if cand.is_empty() {
+                    if !w.rt.wait_for_blocked(1_000) {
+                        break;
+                    }
+                    continue;
+                }
+                let k = cand[rng.usize(cand.len())];
+                seams::log_u64("sched", k as u64);
+                if pass == 0 {
+                    cx.rep.count("fault.scheduling_point_at_salt_queue_lock");
+                }
+                if let Step::Finished(r) = w.rt.step(nodes[k]) {
+                    res[k] = Some(r.ok().and_then(|o| o.downcast::<Option<String>>().ok()).and_then(|b| *b));
+                }
+            }
+            crate::rt::LOCK_POINT_YIELDS.store(false, Ordering::SeqCst);
+            crate::rt::FUTEX_WAKE_YIELDS.store(false, Ordering::SeqCst);
+            sd_jwt_rs::utils::SALTS.clear_poison();
+            if pass == 0 {
+                cx.rep.evaluations += 1;
+                cx.rep.count("oracle.c16.concurrent_pair_checked");
+                let mut used: Vec<(usize, String)> = Vec::new();
+                let mut ok = true;
+                for (k, is) in [ia, ib].iter().enumerate() {
+                    match res[k].clone().flatten().and_then(|s| Message::parse(&s, is.fmt)) {
+                        Some(m) => {
+                            for d in &m.disclosures {
+                                if let Some(salt) = model::decode_disclosure(d).and_then(|v| v.get(0).and_then(Value::as_str).map(str::to_string)) {
+                                    used.push((k, salt));
+                                }
+                            }
+                        }
+                        None => ok = false,
+                    }
+                }
+                if ok {
+                    let n = used.len();
+                    let want: Vec<&String> = before.iter().take(n).collect();
+                    let mut got: Vec<&String> = used.iter().map(|(_, s)| s).collect();
+                    let mut want_sorted = want.clone();
+                    want_sorted.sort();
+                    got.sort();
+                    // per credential: in queue order
+                    let pos = |s: &String| before.iter().position(|q| q == s);
+                    let in_order = (0..2).all(|k| {
+                        let p: Vec<Option<usize>> = used.iter().filter(|(kk, _)| *kk == k).map(|(_, s)| pos(s)).collect();
+                        p.windows(2).all(|w| w[0] <= w[1])
+                    });
+                    let left = queue_now();
+                    if got != want_sorted || !in_order || left.as_slice() != &before[n.min(before.len())..] {
+                        cx.violate(
+                            "C16",
+                            "queue-conservation",
+                            "c16:concurrent_issuances_do_not_share_the_queue_correctly".into(),
+                            BTreeMap::new(),
+                            json!({"salts_used": used, "queue_head": before.iter().take(n + 2).collect::<Vec<_>>(), "left_after": left.len(), "expected_left": before.len().saturating_sub(n)}),
+                            scenario.clone(),
+                        );
+                    }
+                } else {
+                    cx.rep.count("probe.concurrent_pair_not_issued");
+                }
             }
         }
         runs.push(outs);
